@@ -36,6 +36,12 @@ func (t *TaskExecutor[T]) ExecuteAt(identifier T, callback func(), executionTime
 	t.queuedElementsMutex.Lock()
 	defer t.queuedElementsMutex.Unlock()
 
+	// a TaskExecutor that was shut down rejects new tasks: the pending task of the identifier must then not be cancelled
+	// (it is still going to be executed, unless the shutdown dropped it)
+	if t.queue.IsShutdown() {
+		return nil
+	}
+
 	if queuedElement, queuedElementExists := t.queuedElements.Get(identifier); queuedElementExists {
 		queuedElement.Cancel()
 	}
